@@ -414,6 +414,9 @@ def run(analysis: Analysis, tier: str) -> RuleResult:
         bad = [k for k in s["kw"] if k not in acc]
         res.add("C18-R2", f"{s['where'].rsplit(':', 1)[0]} / {s['text'][:70]}", not bad, s["where"], "keywords accepted" if not bad else f"keywords {bad} are not accepted by {s['cls']}")
     version_rules(analysis, res)
+    from .c03 import is_version_floor
+
+    is_version_floor(analysis, res, "C18-R3")
     for summ in common.pmap(analysis, selector_worker, ["x"]):
         seen = False
         for r in summ["rows"]:
